@@ -193,8 +193,10 @@ PROPS = {
     ),
     'C08': dict(
         parts=[dict(harness='C08', judge='C08', cases=dict(quick=5000, thorough=50000), judge_module='Judge.J06', judge_fn='judge_C08'),
-               dict(harness='C08s', judge='C08s', cases=dict(quick=2000, thorough=20000))],
-        rule='part 1: (CNF problem, certificate) pairs over 2..7 (quick) / 2..10 (thorough) variables: genuine solver traces, traces '
+               dict(harness='C08s', judge='C08s', cases=dict(quick=2000, thorough=20000)),
+               dict(harness='G08', judge='goirup', cases=dict(quick=6000, thorough=60000), judge_module='Judge.J26', judge_fn='judge_goir_up', kernel_cases=60, kernel_maxlen=1500, needs_hooks=True)],
+        rule='part 3 (G08): the unit propagation of the checker, (*Problem).unsat of explain/problem.go, run through the hook explain.VerifUnsat on generated states (clauses with repeated literals, empty clauses, certificate lines already added, partial bindings, tags): result, panic and the bindings and tags it leaves equal what the interpreter of coq/Model/GoIR2.v computes on the syntax tree regenerated from that source (coq/Gen/GoSrcX.v, judge coq/Judge/J26.v). '
+             'part 1: (CNF problem, certificate) pairs over 2..7 (quick) / 2..10 (thorough) variables: genuine solver traces, traces '
              'with one literal dropped or flipped, one line removed, lines permuted, random clause sequences (with tautological and '
              'repeated-literal lines); reader and channel entry points; each pair checked twice on the same Problem; '
              'accepted => every line entailed (oracle); every line RUP for the verified checker => accepted. part 2: UnsatSubset on '
@@ -207,7 +209,8 @@ PROPS = {
         parts=[dict(harness='C14', judge='C14', cases=dict(quick=6000, thorough=50000), judge_module='Judge.J14', judge_fn='judge_C14'),
                dict(harness='C14opt', judge='C03', cases=dict(quick=3000, thorough=30000)),
                dict(harness='S14', judge='snaps', cases=dict(quick=3000, thorough=30000), judge_module='Judge.J21', judge_fn='judge_snaps'),
-               dict(harness='T14', judge='tracepb', cases=dict(quick=600, thorough=6000), judge_module='Judge.J24', judge_fn='judge_trace_pb', kernel_cases=12, kernel_maxlen=40000)],
+               dict(harness='T14', judge='tracepb', cases=dict(quick=600, thorough=6000), judge_module='Judge.J24', judge_fn='judge_trace_pb', kernel_cases=12, kernel_maxlen=40000),
+               dict(harness='G14', judge='goirpb', cases=dict(quick=8000, thorough=80000), judge_module='Judge.J26', judge_fn='judge_goir_pbop', kernel_cases=60, kernel_maxlen=1500, needs_hooks=True)],
         rule='part 1: problems (CNF, 3-SAT, cardinality, PB, pigeonhole as clauses and as cardinality constraints, binary-rich CNF '
              'with and without PB constraints; 2..9 variables quick, 2..13 thorough) solved with CuttingPlanes=true, half of them '
              'after DetectAtMostOne, a quarter with a learned-constraint limit of 4; every answer is judged against the oracle '
